@@ -73,7 +73,8 @@ pub struct RefResult {
 
 pub enum Outcome {
     Determined(RefResult),
-    Undetermined(String),
+    /// reason, and the known-defect triggers touched before the run became undetermined
+    Undetermined(String, BTreeSet<&'static str>),
 }
 
 enum Stop {
@@ -389,7 +390,12 @@ impl<'a> Machine<'a> {
     fn binop(&mut self, op: BinOp, a: Val, b: Val, path: &str) -> R<Val> {
         if let (Val::S(x), Val::S(y)) = (&a, &b) {
             return Ok(match op {
-                BinOp::Add => Val::S(format!("{}{}", x, y)),
+                BinOp::Add => {
+                    if x.len() + y.len() > 4000 {
+                        return undet("string longer than 4000 characters (resource limit of the reference)");
+                    }
+                    Val::S(format!("{}{}", x, y))
+                }
                 o if o.is_relational() => {
                     let ord = x.as_bytes().cmp(y.as_bytes());
                     Val::N(Num::whole(Ty::Int, if rel(o, ord) { -1 } else { 0 }))
@@ -1285,7 +1291,7 @@ pub fn run(prog: &Program, budget: u64) -> Outcome {
     let end = match r {
         Ok(()) | Err(Stop::End) => RefEnd::Ok,
         Err(Stop::Err(e)) => RefEnd::Err(e),
-        Err(Stop::Undet(why)) => return Outcome::Undetermined(why),
+        Err(Stop::Undet(why)) => return Outcome::Undetermined(why, m.triggers),
         Err(Stop::Goto(l)) => panic!("refsem: GOTO to unknown label {}", l),
         Err(Stop::Return) => panic!("refsem: stray RETURN flow"),
         Err(Stop::ExitProc) => panic!("refsem: EXIT outside procedure"),
